@@ -167,12 +167,15 @@ def strandClass (k : Kind) (cancelCfg : Nat) (l : List Ev) (p : Pos) (t : Nat) :
     match cb with
     | some c =>
       let cancelAfterClose := (lastIdx (fun e => match e with | .cancel _ => true | _ => false) l).any (c < ·)
-      if cancelCfg = 1 && cancelAfterClose then "batchpool-cancel-overload" else "batchpool-other"
+      if cancelCfg % 2 = 1 && cancelAfterClose then "batchpool-cancel-overload"
+      else if cancelCfg % 2 = 0 && cancelCfg / 2 % 2 = 1 then "batchpool-cancelrunning-overload"
+      else "batchpool-other"
     | none => "batchpool-other"
   | .wq => "workerqueue"
 
 def isNarrow (c : String) : Bool :=
-  c == "mailbox-drain-window" || c == "boundedpool-submit-select" || c == "batchpool-cancel-overload"
+  c == "mailbox-drain-window" || c == "boundedpool-submit-select" || c == "batchpool-cancel-overload" ||
+    c == "batchpool-cancelrunning-overload"
 
 /-- The acceptor run on every implementation log. `ok` or `viol:<signature>`. -/
 def judge (k : Kind) (cancelCfg : Nat) (l : List Ev) : String :=
@@ -180,7 +183,7 @@ def judge (k : Kind) (cancelCfg : Nat) (l : List Ev) : String :=
   else if !atMostOnce l then "viol:task-ran-twice"
   else if !rejectedNeverRun l then "viol:rejected-task-ran"
   else if !ranWereSubmitted l then "viol:unsubmitted-task-ran"
-  else if cancelCfg ≠ 1 && !(cancels l).isEmpty then "viol:cancel-hook-unconfigured"
+  else if cancelCfg % 2 ≠ 1 && !(cancels l).isEmpty then "viol:cancel-hook-unconfigured"
   else if !singleDrain l then "viol:concurrent-drain"
   else if k == .mb && !fifoObs l then "viol:shard-order"
   else if closeWaits l then "ok"
